@@ -39,6 +39,7 @@ def fixed_examples():
         ("single7", eg.single_plaquette(7)), ("star", eg.star_lattice_sheared()[0]),
     ]
     out += [("pinched_open", pinched_open()), ("two_site_torus", two_site_torus())]
+    out += [("spike_first", spike_first()), ("spike_first_torus", spike_first(torus=True))]
     for n in (3, 5):
         a, b = mirror_rows(n)
         out += [(f"row{n}-top", a), (f"row{n}-bottom", b)]
@@ -66,6 +67,20 @@ def two_site_torus():
     e = np.array([[0, 1], [0, 1], [0, 1], [0, 1]])
     c = np.array([[0, 0], [-1, 0], [0, -1], [-1, -1]])
     return Lattice(v, e, c)
+
+
+def spike_first(torus=False):
+    """a dangling edge inside a face, listed as edge 0 (every other edge of that face has a higher index): a walk started on it must come back along it"""
+    if not torus:
+        v = np.array([[0.5, 0.55], [0.2, 0.2], [0.8, 0.2], [0.8, 0.8], [0.2, 0.8], [0.5, 0.2]])
+        e = np.array([[1, 0], [1, 5], [5, 2], [2, 3], [3, 4], [4, 1], [5, 3]])          # spike 1-0 first; two faces share the chord 5-3
+        return Lattice(v, e, np.zeros_like(e))
+    l = eg.square_lattice(3, 3)
+    pos = np.concatenate([l.vertices.positions, [l.vertices.positions[0] + np.array([0.12, 0.15])]])
+    n = l.n_vertices
+    e = np.concatenate([[[0, n]], l.edges.indices])
+    c = np.concatenate([[[0, 0]], l.edges.crossing])
+    return Lattice(pos % 1, e, c)
 
 
 def mirror_rows(n):
